@@ -67,6 +67,8 @@ func init() {
 		"reflect.ArrayOf":              ext۰reflect۰ArrayOf,
 		"reflect.Copy":                 ext۰reflect۰Copy,
 		"reflect.TypeOf":               ext۰reflect۰TypeOf,
+		"internal/reflectlite.TypeOf":  ext۰reflect۰TypeOf,
+		"internal/reflectlite.ValueOf": ext۰reflect۰ValueOf,
 		"reflect.ValueOf":              ext۰reflect۰ValueOf,
 		"reflect.Zero":                 ext۰reflect۰Zero,
 		"reflect.Indirect":             ext۰reflect۰Indirect,
